@@ -650,38 +650,7 @@ func (c *c15) inverseNames() {
 // Register/RegisterModule, with pairwise distinct names.
 func (c *c15) activationNames() {
 	p, r := c.p, c.r
-	for _, x := range [][2]string{{"ActivationNameFromType", "forward"}, {"ActivationTypeFromName", "inverse"}} {
-		fn := p.Func(PkgM, "NodeActivatorsFactory."+x[0])
-		r.Fn(FuncName(fn))
-		tm := NewTermer(fn)
-		ok, n := true, 0
-		for _, b := range fn.Blocks {
-			ret, isRet := b.Instrs[len(b.Instrs)-1].(*ssa.Return)
-			if !isRet {
-				continue
-			}
-			if tm.Of(ret.Results[1]).Op != "nil" {
-				continue
-			}
-			n++
-			v := tm.Of(ret.Results[0])
-			if !(v.Op == "lookup" && v.Args[0].String() == "recv."+x[1] && isParamIdx(v.Args[1], 1)) {
-				ok = false
-			}
-		}
-		r.Check(ok && n > 0, x[0]+".source", p.Pos(fn.Pos()), "answers from the "+x[1]+" map with its argument as key", x[0]+" does not answer from recv."+x[1]+"[argument]")
-	}
-	for _, name := range []string{"Register", "RegisterModule"} {
-		fn := p.Func(PkgM, "NodeActivatorsFactory."+name)
-		tm := NewTermer(fn)
-		got := map[string]string{}
-		Instrs(fn, func(_ *ssa.BasicBlock, _ int, in ssa.Instruction) {
-			if mu, ok := in.(*ssa.MapUpdate); ok {
-				got[tm.Of(mu.Map).String()] = tm.Of(mu.Key).String() + "->" + tm.Of(mu.Value).String()
-			}
-		})
-		r.Check(got["recv.forward"] == "p1->p3" && got["recv.inverse"] == "p3->p1", name+".name-maps", p.Pos(fn.Pos()), "type->name and name->type stored together", fmt.Sprintf("%s does not store type->name and name->type for the same pair: %v", name, got))
-	}
+	// (how the registry stores the pairs is C18.1's concern; here only what every representation needs: one name per type)
 	// distinct names and types among the registrations
 	factory := p.Func(PkgM, "NewNodeActivatorsFactory")
 	names, typs := map[string]int{}, map[string]int{}
